@@ -587,6 +587,10 @@ func (e *SpecEnv) loc(x *Expr) *Loc {
 	sh := e.shadow()
 	switch x.Op {
 	case "ident":
+		if v, ok := e.vars[x.Name]; ok && v.Deref != nil {
+			// captured (address-taken) variable: its cell
+			return sh.asLoc(v.V, v.Deref)
+		}
 		if gg, ok := e.g.DB.Ghosts["$g."+x.Name]; ok {
 			if _, shadowed := e.vars[x.Name]; !shadowed {
 				gt, err := e.g.P.lookupType(gg.Typ, gg.Pkg)
